@@ -37,6 +37,6 @@ OBLIGATIONS += [
     dict(JOB, name='U5.job', params_quick=[{'VF_CASE': 4, 'VF_K': k, 'VF_DEPS': d} for (k, d) in ((1, 0), (2, 0), (1, 1))], params_thorough=[{'VF_CASE': 4, 'VF_K': k, 'VF_DEPS': d} for k in (1, 2) for d in (0, 1)]),
     dict(TASK, name='U3.start', params_quick=[{'VF_CASE': 2, 'VF_E': e, 'VF_I': i, 'VF_O': o} for (e, i, o) in ((1, 0, 0), (1, 1, 1), (0, 0, 1), (2, 1, 0), (1, 0, 2))],
          params_thorough=[{'VF_CASE': 2, 'VF_E': e, 'VF_I': i, 'VF_O': o} for e in (0, 1, 2) for i in (0, 1) for o in (0, 1, 2) if 0 < e + i + o <= 4]),
-    dict(TASK, name='U4.decision', params_quick=[{'VF_CASE': 3, 'VF_E': e, 'VF_K': k, 'VF_DEPS': d} for (e, k, d) in ((1, 1, 0), (2, 1, 0), (1, 2, 0), (1, 1, 1))],
-         params_thorough=[{'VF_CASE': 3, 'VF_E': e, 'VF_K': k, 'VF_DEPS': d} for e in (1, 2) for k in (1, 2) for d in (0, 1)]),
+    dict(TASK, name='U4.decision', params_quick=[{'VF_CASE': 3, 'VF_E': e, 'VF_K': k, 'VF_DEPS': d} for (e, k, d) in ((0, 1, 0), (1, 1, 0), (2, 1, 0), (1, 2, 0), (1, 1, 1))],
+         params_thorough=[{'VF_CASE': 3, 'VF_E': e, 'VF_K': k, 'VF_DEPS': d} for e in (0, 1, 2) for k in (1, 2) for d in (0, 1)]),
 ]
